@@ -94,6 +94,11 @@ CHECKS = {
     note="Trusted: TLC, StaticInfo.tla, drv_static.cpp. Clipped-shape leaves compose only with flatten/reshape (compile-time API limitation); depth-3 types are not generated; the clamp/capacity hooks of the design are replaced by the end-to-end check 'eval returned every element'.",
     technique="TLA+ abstract-interpretation model checked by TLC; generated view types instantiated over every admitted run-time shape; trace validation by TLC",
     design="5/C11"),
+ "C09": dict(
+    text="No operator of the reference specification mentions a container kind; the same values are executed under every container / static-knowledge kind (compile-time constant tuples, clipped integers, std::array, raw arrays, nmtools/utl static_vector, std::vector, utl::vector, utl::array, run-time tuples, mixed pairs; raw, nested, fixed, hybrid, dynamic and ndarray_t arrays; compile-time and run-time axis/shape arguments) in three builds (g++ with assertions, g++ -O2 -DNDEBUG, clang++) and TLC validates every result against the one reference (a compile-time rejection counts as 'reports failure'), which proves pairwise agreement and agreement with the compile-time evaluation; the addressing and broadcasting models are model-checked as part of the run.",
+    note="Trusted: TLC, Denote, drv_config.cpp (macro-instantiated kinds over a fixed value set). The run-time kinds additionally run the complete tables of C01, C05, C06, C11, C19, C20. The NMTOOLS_DISABLE_STL build is attempted in the thorough tier only.",
+    technique="single TLA+ reference semantics; trace validation by TLC of the same cases under every configuration",
+    design="5/C09"),
 }
 
 NOT_APPLICABLE = {}
